@@ -318,6 +318,9 @@ def run_shard(spec, R):
             if ok and not wd[1].get("vf_degenerate"):
                 fmw = TR.first_moment_bound(M, M.flat(b - a), cw)
                 R.check(wd[0] >= fmw - 1e-9 * max(fmw, abs(wd[0])), "first_moment_bound", {**desc, "distance": wd[0], "bound": fmw, "weight": cw}, group=grp)
+                # a constant weight rescales the cost functional and every face weight by the same factor; with the
+                # penalty L unchanged the Bregman iterates (fluxes) are the same, so the distance is c times the base
+                R.check(abs(wd[0] - cw * d0) <= 1e-8 * cw * sc, "scaling_linear", {**desc, "law": "constant cell weight (Bregman, same L)", "weighted": wd[0], "c_times_base": cw * d0}, group=grp)
         # front-end == back-end
         ok, fe = R.guarded("frontend", lambda: solve(method, (m1, m2), l1, mob, frontend=True))
         if ok:
